@@ -181,9 +181,12 @@ func runC10(r *h.Run) {
 		}
 	}
 	var stderrBytes []byte
+	var shape []string
 	for i := range lines {
 		stderrBytes = append(stderrBytes, lines[i].Text+lines[i].Term...)
+		shape = append(shape, fmt.Sprintf("%s:%d", lines[i].Class, len(lines[i].Text)))
 	}
+	r.Info["lines"] = strings.Join(shape, " ")
 	// stdout after the handshake
 	var stdoutBytes []byte
 	switch r.Spec.P("stdout", "") {
@@ -305,11 +308,14 @@ func runC10(r *h.Run) {
 			// change. Skip the records of its pieces (all made of one letter), and
 			// the empty tail piece a line of exactly k x bufsize bytes produces, so
 			// that they are not mistaken for the records of later lines.
-			if l.Class == "long" && len(l.Text) > 0 {
-				for ri < len(recs) && recs[ri].Msg != "" && strings.Trim(recs[ri].Msg, l.Text[:1]) == "" {
-					ri++
+			// (whatever its class: a JSON line longer than the buffer is logged in
+			// pieces like any other)
+			for off := 0; off <= len(l.Text); off += effBuf {
+				end := off + effBuf
+				if end > len(l.Text) {
+					end = len(l.Text)
 				}
-				if len(l.Text)%effBuf == 0 && ri < len(recs) && recs[ri].Msg == "" {
+				if ri < len(recs) && recs[ri].Msg == l.Text[off:end] {
 					ri++
 				}
 			}
